@@ -261,7 +261,6 @@ func realDigest(alg string, b []byte) []byte {
 	panic(unsupported{"digest algorithm " + alg})
 }
 
-
 // appendDigest is append(prefix, digest...) with Go's aliasing and capacity
 // behaviour: written in place when the prefix has room (callers re-slice the
 // result up to the capacity they allocated), into a fresh array otherwise.
